@@ -27,7 +27,7 @@ var suitesByProp = map[string][]func(*runner, *rng){
 	"C19": {suiteDeterminism},
 	"C08": {suiteTotality},
 	"C06": {suiteTeletext},
-	"C07": {suiteConvert, suiteConvertModel, suiteConvertOps},
+	"C07": {suiteConvert, suiteConvertModel, suiteConvertOps, suiteConvertCLI, suiteConvertRich},
 	"C20": {suiteConcurrency},
 	"C18": {suiteFaults},
 }
